@@ -76,9 +76,24 @@ def encode(forest, pos):
     return toks
 
 
+_FORESTS = []      # every forest handed to case_line, in order (the file leg samples from it)
+
+
 def case_line(forest):
     text, pos = render(forest)
+    _FORESTS.append(forest)
     return "ast %s %s" % (lib.hexs(text.encode()), " ".join(encode(forest, pos)))
+
+
+def file_case_line(forest, fixed=None):
+    """the same text through a file and Modules.Read (twice, then by module name, then after correcting it)"""
+    text, pos = render(forest)
+    toks = encode(forest, pos)
+    if fixed is None:
+        return "astfile %s - %s" % (lib.hexs(text.encode()), " ".join(toks))
+    text2, pos2 = render(fixed)
+    return "astfile %s %s %s %s" % (lib.hexs(text.encode()), lib.hexs(text2.encode()), " ".join(toks),
+                                    " ".join(encode(fixed, pos2)))
 
 
 def size(forest):
@@ -226,9 +241,130 @@ def sweep(tb):
         cases.append(case_line([tb.minimal("module", "m0"), tb.minimal(k, "t")]))
         cases.append(case_line([tb.minimal(k, "t"), tb.minimal("module", "m0")]))
         hist["toplevel"] += 3
-    cases.append("ast - 0")
+    cases.append(case_line([]))
     cases.append(case_line([tb.minimal("module", "m0"), tb.minimal("submodule", "m0"), tb.minimal("module", "m1"),
                             tb.minimal("submodule", "s1")]))
+    return cases, hist
+
+
+WIDTHS = [31, 32, 33, 34, 64, 100]
+
+
+def wide(tb):
+    """statements with many substatements of ONE multi-valued keyword (and mixes)"""
+    cases = []
+    hist = dict(wide_all_pairs=0, wide_widths=0, wide_mixes=0)
+    paths = tb.paths()
+    pairs = []
+    for (ty, kw), chain in sorted(paths.items()):
+        for f in tb.children(ty):
+            if f["kind"] == "FMulti":
+                pairs.append((ty, kw, chain, f["key"]))
+
+    def ctx(ty, kw, chain, subs):
+        req = tb.required_keys(ty, kw)
+        present = {x[0] for x in subs}
+        base = [tb.minimal(k, "r") for k in req if k not in present]
+        return [tb.wrap(chain, (kw, "w", base + subs))]
+    # every (struct, repeated field) of the table just below and just above 32
+    for ty, kw, chain, c in pairs:
+        for n in (32, 33):
+            cases.append(case_line(ctx(ty, kw, chain, [tb.minimal(c, "n%d" % i) for i in range(n)])))
+            hist["wide_all_pairs"] += 1
+    # a selection at every width
+    pick = [("module", "leaf"), ("module", "container"), ("module", "typedef"), ("module", "import"),
+            ("module", "identity"), ("module", "revision"), ("submodule", "typedef"), ("container", "leaf"),
+            ("container", "container"), ("container", "must"), ("container", "typedef"), ("list", "leaf"),
+            ("type", "enum"), ("type", "bit"), ("type", "type"), ("type", "pattern"), ("leaf", "must"),
+            ("leaf", "if-feature"), ("grouping", "typedef"), ("grouping", "grouping"), ("choice", "case"),
+            ("identity", "base"), ("uses", "refine"), ("rpc", "typedef"), ("input", "leaf")]
+    for ty, kw, chain, c in pairs:
+        if (kw, c) in pick:
+            for n in WIDTHS:
+                cases.append(case_line(ctx(ty, kw, chain, [tb.minimal(c, "v%d" % i) for i in range(n)])))
+                hist["wide_widths"] += 1
+    # mixes: two wide keywords interleaved, wide + extensions, many statements spread thinly, wide inside wide
+    for ty, kw, chain, c in pairs:
+        if (kw, c) not in (("module", "leaf"), ("container", "leaf"), ("grouping", "leaf"), ("type", "enum")):
+            continue
+        other = [f["key"] for f in tb.children(ty) if f["kind"] == "FMulti" and f["key"] != c]
+        for n in (33, 40):
+            a = [tb.minimal(c, "a%d" % i) for i in range(n)]
+            if other:
+                b = [tb.minimal(other[0], "b%d" % i) for i in range(n)]
+                inter = [x for p in zip(a, b) for x in p]
+                cases.append(case_line(ctx(ty, kw, chain, inter)))
+                cases.append(case_line(ctx(ty, kw, chain, a + b[:20])))
+                thin = []
+                for j, o in enumerate(other[:4]):
+                    thin += [tb.minimal(o, "t%d_%d" % (j, i)) for i in range(12)]
+                cases.append(case_line(ctx(ty, kw, chain, thin + a[:12])))
+                hist["wide_mixes"] += 3
+            ex = [("x:e%d" % i, "e", []) for i in range(n)]
+            cases.append(case_line(ctx(ty, kw, chain, [x for p in zip(a, ex) for x in p])))
+            cases.append(case_line(ctx(ty, kw, chain, ex + a[:5])))
+            # one bad statement after many good ones: the error position is far down
+            cases.append(case_line(ctx(ty, kw, chain, a + [("bogus", "z", [])])))
+            hist["wide_mixes"] += 3
+    inner = ("container", "in", [tb.minimal("leaf", "l%d" % i) for i in range(34)])
+    outer = ("module", "m", [tb.minimal("namespace", "r"), tb.minimal("prefix", "r")] +
+             [("container", "o%d" % i, [inner] if i in (0, 35) else []) for i in range(36)])
+    cases.append(case_line([outer]))
+    cases.append(case_line([tb.minimal("module", "m%d" % i) for i in range(34)]))
+    hist["wide_mixes"] += 2
+    return cases, hist
+
+
+def file_cases(tb, rnd, verdicts):
+    """the file leg: faulty and good sources through Modules.Read, repeatedly.
+    verdicts: (forest, rejected by the model?) of the cases of the first phase"""
+    good = tb.minimal("module", "m")
+    ns, pf = tb.minimal("namespace", "r"), tb.minimal("prefix", "r")
+    leaf = ("leaf", "a", [("type", "string", [])])
+    good2 = ("module", "m", [ns, pf, leaf, ("container", "c", [leaf, ("x:ext", "1", [])])])
+    sub = ("submodule", "s", [("belongs-to", "m", [("prefix", "p", [])])])
+    faulty = [
+        [("container", "c", [])],                                                    # top-level non-module
+        [("bogus", "c", [])],
+        [good, ("container", "c", [])],
+        [("module", "m", [ns, pf, ("frobnicate", "x", [])])],                        # unknown keyword
+        [("module", "m", [ns, pf, ("container", "c", [("type", "t", [])])])],        # unknown in context
+        [("module", "m", [ns, pf, ("leaf", "a", [("type", "t", []), ("type", "u", [])])])],   # repeated type
+        [("module", "m", [ns, pf, ("prefix", "q", [])])],
+        [("module", "m", [ns, pf, ("leaf", "a", [])])],                              # leaf without type
+        [("module", "m", [ns, pf, ("import", "o", [])])],                            # import without prefix
+        [("module", "m", [pf])],                                                     # module without namespace
+        [("module", "m", [ns])],
+        [("submodule", "s", [])],                                                    # submodule without belongs-to
+        [("submodule", "s", [("belongs-to", "m", [])])],
+        [("submodule", "s", [("belongs-to", "m", [("prefix", "p", [])]), ns])],      # other kind's field
+        [("module", "m", [ns, pf, ("container", "c", [("Statement", "zz", [])])])],
+        [("module", "m", [ns, pf] + [tb.minimal("leaf", "l%d" % i) for i in range(40)] + [("bogus", "z", [])])],
+    ]
+    goods = [[good], [good2], [sub], [good2, sub],
+             [("module", "m", [ns, pf] + [tb.minimal("leaf", "l%d" % i) for i in range(34)])]]
+    cases = []
+    hist = dict(file_faulty=0, file_good=0, file_from_sweep=0)
+    for f in faulty:
+        for fix in goods[:3]:
+            cases.append(file_case_line(f, fix))
+        cases.append(file_case_line(f, faulty[0]))        # "corrected" into another faulty text
+        cases.append(file_case_line(f))
+        hist["file_faulty"] += 5
+    for g in goods:
+        cases.append(file_case_line(g))
+        hist["file_good"] += 1
+    # an accepted file rewritten into a faulty one must be refused
+    for g in goods[:3]:
+        for f in faulty[:12]:
+            cases.append(file_case_line(g, f))
+            hist["file_good"] += 1
+    # a sample of the table sweep, the wide statements and the random trees: rejected ones are
+    # afterwards corrected into a good module, accepted ones are just read again
+    sample = rnd.sample(verdicts, min(600, len(verdicts)))
+    for f, rejected in sample:
+        cases.append(file_case_line(f, [good2]) if rejected else file_case_line(f))
+        hist["file_from_sweep"] += 1
     return cases, hist
 
 
@@ -287,7 +423,7 @@ def randoms(tb, rnd, n):
     return cases
 
 
-def canon(o):
+def canon1(o):
     """errors are compared by position only: "err L:C" / "err nopos" (the model adds the kind)"""
     if o.startswith("PANIC"):
         return "PANIC"
@@ -296,19 +432,53 @@ def canon(o):
     return o
 
 
+def canon(o):
+    if " | " not in o:
+        return canon1(o)
+    steps = [canon1(x) for x in o.split(" | ")]
+    if steps[0].startswith("ok"):
+        # an accepted file: a further Read may report the duplicate or change nothing -- but if it
+        # claims success the set must still show exactly what the first Read built
+        later = ["same" if x in (steps[0], "err nopos", "same") else x for x in steps[1:3]]
+        # ... and once the file has been rewritten into a faulty text it must be refused (where exactly
+        # depends on the duplicate test, which is not modelled)
+        last = [("err" if x.startswith("err") else x) for x in steps[3:]]
+        steps = [steps[0]] + later + last
+    return " | ".join(steps)
+
+
 def gen(tier, seed):
+    """first phase: statement trees through Modules.Parse; returns also the forest of every case"""
     tb = Table()
     rnd = random.Random(seed)
+    del _FORESTS[:]
     cases, hist = sweep(tb)
+    w, h2 = wide(tb)
+    cases += w
+    hist.update(h2)
     nr = 3000 if tier == "quick" else 60000
     cases += randoms(tb, rnd, nr)
     hist["random_trees"] = nr
-    return tb, cases, hist
+    forests = list(_FORESTS)
+    assert len(forests) == len(cases)
+    return tb, cases, hist, forests, rnd
 
 
 def run(res, tier, seed, proof):
-    tb, cases, hist = gen(tier, seed)
+    tb, cases, hist, forests, rnd = gen(tier, seed)
     go, ml, mism = lib.diff_cases(res, cases, canon=canon)
+    # second phase, the file leg (Modules.Read, repeatedly, on one set): which sampled texts get a corrected
+    # version is decided by the model's verdict of the first phase
+    verdicts = [(f, m.startswith("err")) for f, m in zip(forests, ml) if m.startswith(("err", "ok"))]
+    fcases, h3 = file_cases(tb, rnd, verdicts)
+    hist.update(h3)
+    fgo, fml, fmism = lib.diff_cases(res, fcases, canon=canon, corr_name="model-vs-implementation (file leg)")
+    for c, g in zip(fcases, fgo):
+        if any(not (x.startswith("ok") or x.startswith("err ")) for x in g.split(" | ")):
+            res.violation("implementation neither built nor rejected (file leg): %s -> %s" % (c[:200], g[:200]),
+                          dict(kind="correspondence", case=c, impl=g, model="(see replay)"))
+            break
+    mism += fmism
     ok = sum(1 for g in go if g.startswith("ok"))
     err = sum(1 for g in go if g.startswith("err"))
     kinds = {}
@@ -330,25 +500,32 @@ def run(res, tier, seed, proof):
                      {c for c, g in zip(cases, go) if g.startswith("err")})
     mid = len(cases) // 2
     cov = dict(
-        evaluations=len(cases), distinct_nontrivial=nontrivial,
+        evaluations=len(cases) + len(fcases), distinct_nontrivial=nontrivial + len(set(fcases)),
         rule="per-row sweep of the generated table (every struct reachable from module/submodule x every child "
              "field at multiplicity 1 and 2 in two positions; every required field omitted; pseudo keywords "
              "Name/Statement/Parent/Ext, unknown, prefixed and multi-colon keywords, with and without argument; "
              "every keyword at top level alone, before and after a module) plus random trees over the table's "
              "keywords; non-trivial = rejected, or built with at least three nodes.  On rejection the line:col "
              "prefix of the Go error (or its absence) is compared with the position of the statement the model "
-             "reports (C16, third sentence, for builder errors)",
+             "reports (C16, third sentence, for builder errors).  Wide statements: 31..100 substatements of one "
+             "repeated keyword for every (struct, repeated field) of the table, interleaved mixes.  File leg: "
+             "faulty and good texts written to a file and read with Modules.Read twice, then by module name "
+             "through the search path, then once more after the file was corrected (or broken) on disk -- a "
+             "rejected source must be rejected every time at the same position, a Read without error must show "
+             "the mirrored module in the set",
         exhaustive=False, mismatches=mism,
         distribution=dict(hist, built=ok, rejected=err, other=other, error_kinds=kinds,
                           error_kinds_reported_at_depth_2_or_more=deep,
                           structs=len(tb.structs), keywords=len(tb.names)),
-        samples=[cases[7][:400], cases[mid][:400], cases[-5][:400]],
-        sample_observations=[go[7][:400], go[mid][:400], go[-5][:400]],
+        samples=[cases[7][:400], cases[mid][:400], cases[-5][:400], fcases[3][:400]],
+        sample_observations=[go[7][:400], go[mid][:400], go[-5][:400], fgo[3][:400]],
     )
     assumptions = ["the text handed to Modules.Parse and the tree handed to the model are renderings of the same "
                    "generated tree (one statement per line, arguments double-quoted without escapes)",
                    "top-level statements of one text carry distinct names (Modules.add's duplicate test is not modelled)",
-                   "typedef dictionary side effect of build is not observed (C18)"]
+                   "typedef dictionary side effect of build is not observed (C18)",
+                   "file leg: findFile resolves dir/c03case.yang and the module name c03case to the file just written "
+                   "(nothing named c03case*.yang in the harness' working directory)"]
     return cov, assumptions
 
 
@@ -360,6 +537,9 @@ def replay(rep, res):
     if len(toks) > 1 and toks[1] != "-":
         print("text :")
         print(bytes.fromhex(toks[1]).decode(errors="replace"))
+    if toks[0] == "astfile" and toks[2] != "-":
+        print("corrected text :")
+        print(bytes.fromhex(toks[2]).decode(errors="replace"))
     print("impl :", go)
     print("model:", ml)
     return 0 if canon(go) == canon(ml) else 1
